@@ -133,6 +133,14 @@ def run(tier, seed, replay=None):
                         if any(c.untyped_storage().data_ptr() in px for c in z.cores):
                             V.fail("clone shares storage with the original [%s]" % kind, desc)
                 if not okv: V.fail("%s does not reproduce the value / metadata [%s]" % (name, kind), desc)
+                if name != "numpy":          # the copy is an object of its own: the documented in-place edit of the copy (a core with another mode size) leaves the original as it is
+                    try:
+                        k_ = rng.randrange(len(z.cores)); shp_ = list(z.cores[k_].shape); shp_[-2] += 1
+                        z.set_core(k_, torch.ones(shp_, dtype=z.cores[k_].dtype))
+                        d2_ = snap.diff(x) + history.wf_failures(x)
+                        if d2_: V.fail("set_core on the result of %s changes the original (%s)" % (name, d2_[0].split(":")[0][:60]), dict(desc, differences=d2_[:3]))
+                    except Exception as ex:
+                        V.fail("set_core on the result of %s raises %s" % (name, type(ex).__name__), dict(desc, exc=str(ex)[:200]))
             d_ = snap.diff(x)
             if d_: V.fail("operand changed by save/load/copies: %s" % d_[0], dict(desc, differences=d_))
             # copies of objects whose cores are tracked by autograd: a watched leaf, and the result of an operation on it (non-leaf cores).
